@@ -25,7 +25,7 @@ TRUSTED = [
 	'zlib is a parameter (C14); Range preparation is C20',
 ]
 ASSUMPTIONS = ['F23: chunked framing on an HTTP/1.0 message (asked for by the caller, left in the header fields, or switched on by the composer for a content coding) - recorded finding', 'F46: prepare() of a response to HEAD clears the body, a second prepare() then computes Content-Length: 0 - recorded finding']
-RULE = ('prepared requests and responses over body sources {bytes, bytearray, text, list, tuple, generator, BytesIO, real file, none} x lengths {0, 1, 5, 4095, 4096, 4097, 10000} x chunked {unset, on, off} x content coding {none, gzip, deflate} x statuses with and without bodies x request methods incl. HEAD/GET/TRACE '
+RULE = ('prepared requests and responses over body sources {bytes, bytearray, text, list, tuple, generator, BytesIO, real file, none} x lengths {0, 1, 5, 4095, 4096, 4097, 10000} x chunked {unset, on, off; in 40% switched again before a prepare() through Body.chunked, the Transfer-Encoding field, ComposedMessage.transfer_encoding / .chunked} x content coding {none, gzip, deflate} x statuses with and without bodies x request methods incl. HEAD/GET/TRACE '
 	'x pre-populated framing fields (stale Content-Length, Transfer-Encoding) x HTTP/1.0 and 1.1 x operation orders (prepare/compose repeated and interleaved); each output read by an independent RFC 7230 reader; non-trivial = well-framed output with a body; distinct by (framing, status/method, source, length class)')
 
 METHODS = ['GET', 'HEAD', 'POST', 'PUT', 'DELETE', 'OPTIONS', 'TRACE', 'PATCH', 'SEARCH', 'get', 'Head', 'search', 'Post']
@@ -81,10 +81,46 @@ def gen_spec(rng):
 		rng.choice(('GET', 'GET', 'HEAD', 'POST', 'TRACE')), rng.choice(((1, 1), (1, 1), (1, 0))))
 
 
+SWITCHES = {'body-on': 'B', 'body-off': 'b', 'te-set': 'H', 'te-del': 'h', 'te-none': 'h', 'chunk-on': 'T', 'chunk-off': 't'}
+
+
+def gen_ops(rng):
+	"""prepare/compose sequences; in 40% the caller switches the framing some other way before a prepare(): the flag of the Body
+	object, the Transfer-Encoding field through the header API, ComposedMessage.transfer_encoding, ComposedMessage.chunked"""
+	ops = rng.choice(OPS)
+	if rng.random() < 0.6:
+		return ops
+	out = []
+	for i, op in enumerate(ops):
+		if op == 'prepare' and (i == 0 or ops[i - 1] != 'prepare') and rng.random() < 0.8:
+			out.extend(rng.choice(sorted(SWITCHES)) for _ in range(rng.choice((1, 1, 2))))
+		out.append(op)
+	return tuple(out)
+
+
+def apply_switch(b, op):
+	if op == 'body-on':
+		b.message.body.chunked = True
+	elif op == 'body-off':
+		b.message.body.chunked = False
+	elif op == 'te-set':
+		b.message.headers['Transfer-Encoding'] = 'chunked'
+	elif op == 'te-del':
+		b.message.headers.pop('Transfer-Encoding', None)
+	elif op == 'te-none':
+		b.composer.transfer_encoding = None
+	elif op == 'chunk-on':
+		b.composer.chunked = True
+	elif op == 'chunk-off':
+		b.composer.chunked = False
+	else:
+		raise ValueError(op)
+
+
 def cases(rng, tier):
 	n = 60000 if tier == 'thorough' else 6000
 	for _ in range(n):
-		yield ('c', gen_spec(rng), rng.choice(OPS))
+		yield ('c', gen_spec(rng), gen_ops(rng))
 	# range responses: the framing of a 206 (single range, also reaching beyond the end; several ranges) and of what is sent instead
 	for _ in range(n // 6):
 		size = rng.choice((2, 9, 64, 300, 4096))
@@ -105,6 +141,8 @@ def run_ops(spec, ops):
 		for op in ops:
 			if op == 'prepare':
 				b.composer.prepare()
+			elif op in SWITCHES:
+				apply_switch(b, op)
 			else:
 				outs.append(b''.join(b.composer))
 		return outs, None, b
@@ -140,7 +178,7 @@ def canon(name):
 
 
 def opstr(ops):
-	return ''.join('p' if o == 'prepare' else 'c' for o in ops)
+	return ''.join('p' if o == 'prepare' else SWITCHES[o] if o in SWITCHES else 'c' for o in ops)
 
 
 def build_range(case):
@@ -226,6 +264,8 @@ def impl_lines(case):
 		for op in ops:
 			if op == 'prepare':
 				b.composer.prepare()
+			elif op in SWITCHES:
+				apply_switch(b, op)
 			else:
 				w = b''.join(b.composer)
 				head, _sep, body = w.partition(b'\r\n\r\n')
@@ -269,6 +309,8 @@ def oracle(case):
 		if got != want:
 			return {'what': 'output %d (%s framing): body decodes to %d octets, content has %d' % (i, msg['framing'], len(got), len(want)), 'wire': w[:400].hex(), 'case': describe(case), 'finding': None}
 	base = cu.undate(outs[0])
+	if any(op in SWITCHES for op in ops):
+		return None          # the caller changed the framing in between: the outputs are judged one by one only
 	for i, w in enumerate(outs[1:], 1):
 		if cu.undate(w) != base:
 			fid = 'F46' if kind == 'response' and req_method == 'HEAD' and ops.count('prepare') > 1 else None
@@ -293,6 +335,7 @@ def tally(case, res):
 	res.count('source:' + spec[6])
 	res.count('chunked:%s' % spec[8])
 	res.count('coding:%s' % spec[9])
+	res.count('switches:%d' % sum(1 for op in case[2] if op in SWITCHES))
 
 
 def describe(case):
